@@ -86,6 +86,9 @@ def cases(tier, seed):
     for start in range(len(ARCH)):
         for fmt in FORMATS:
             yield "large", dict(start=start, n=nlarge(tier), fmt=fmt)
+    for first, second in itertools.permutations(range(len(OVERWRITE)), 2):
+        for fmt in FORMATS:
+            yield "overwrite", dict(first=first, second=second, fmt=fmt)
 
 
 # ---------------------------------------------------------------------------
@@ -270,7 +273,7 @@ def read_db(path):
     return out
 
 
-def roundtrip(seq_desc, srcs, exp, fmt, prefix, meta, ctx, sig_tail):
+def roundtrip(seq_desc, srcs, exp, fmt, prefix, meta, ctx, sig_tail, before=None):
     """write with save_catalog, read back, compare; reports one violation per class found; returns
     {violation class: [descriptions]}"""
     scratch = os.environ.get("VERIF_SCRATCH") or ("/dev/shm" if os.path.isdir("/dev/shm") else tempfile.gettempdir())
@@ -285,6 +288,13 @@ def roundtrip(seq_desc, srcs, exp, fmt, prefix, meta, ctx, sig_tail):
 
     try:
         fn = os.path.join(base, "cat." + fmt)
+        if before is not None:      # history: another catalogue was written to the same name first
+            try:
+                with warnings.catch_warnings():
+                    warnings.simplefilter("ignore")
+                    catalogs.save_catalog(fn, before, meta=None, prefix=prefix)
+            except Exception:
+                pass
         try:
             with warnings.catch_warnings():
                 warnings.simplefilter("ignore")
@@ -299,6 +309,9 @@ def roundtrip(seq_desc, srcs, exp, fmt, prefix, meta, ctx, sig_tail):
                 want_files = ["cat.db"]
             else:
                 want_files = sorted("cat_%s.%s" % (tag, fmt) for tag, rows in exp.items() if rows)
+            if before is not None and fmt != "db":
+                # files of source types that only the EARLIER catalogue had are still on disk: not this call's business
+                present = [f_ for f_ in present if f_ in want_files]
             if present != want_files:
                 bad("file_split", "files written %r, documented %r" % (present, want_files))
             dbtabs = None
@@ -383,6 +396,22 @@ def ev_roundtrip(case, ctx):
     roundtrip("catalogue [%s]" % ", ".join(seq), srcs, exp, fmt, prefix, meta, ctx, tail)
 
 
+OVERWRITE = [["typ"], ["isl"], ["sim"], ["typ", "isl", "sim"], ["neg", "typ", "nan"]]
+
+
+def ev_overwrite(case, ctx):
+    """history: the same output name is written twice in one process, with catalogues of different source types"""
+    import logging
+    logging.getLogger("Aegean").setLevel(logging.ERROR)      # "overwriting <file>" warnings are expected here
+    a, b, fmt = OVERWRITE[case["first"]], OVERWRITE[case["second"]], case["fmt"]
+    ctx.count("overwrite")
+    srcs_a, _ = build(a, ctx.seed)
+    srcs_b, exp_b = build(b, ctx.seed)
+    tail = "overwrite first=%s second=%s" % ("+".join(a), "+".join(b))
+    ctx.nontrivial("%s %s" % (fmt, tail))
+    roundtrip("catalogue [%s] written over [%s]" % (", ".join(b), ", ".join(a)), srcs_b, exp_b, fmt, None, 0, ctx, tail, before=srcs_a)
+
+
 def ev_large(case, ctx):
     start, n, fmt = case["start"], case["n"], case["fmt"]
     ctx.count("large")
@@ -395,6 +424,8 @@ def ev_large(case, ctx):
 
 
 def evaluate(clause, case, ctx):
+    if clause == "overwrite":
+        return ev_overwrite(case, ctx)
     if clause == "roundtrip":
         ev_roundtrip(case, ctx)
     else:
